@@ -194,6 +194,7 @@ pub fn gen_config(profile: &str, rng: &mut Rng, tier: Tier) -> Config {
 		w(&mut weights, "Disconnect", *r.pick(&[0, 1, 2]));
 		w(&mut weights, "Crash", *r.pick(&[0, 0, 1]));
 		w(&mut weights, "Restart", 8);
+		w(&mut weights, "CheatEarly", *r.pick(&[0, 0, 1]));
 	}
 	if profile == "chainstyle" {
 		w(&mut weights, "Mine", *r.pick(&[3, 6]));
@@ -495,6 +496,11 @@ pub fn next_action(wd: &World, rng: &mut Rng) -> Option<Action> {
 	if !corruptible.is_empty() && wd.onion.corruptions < 3 {
 		kinds.push(("Corrupt", weight(cfg, "Corrupt")));
 	}
+	// C06: in a third of the `justice` runs the cheat happens in the middle of the traffic instead
+	// of after quiescence
+	if cfg.profile == "justice" && wd.cheat.is_none() && wd.trace.len() > 60 && weight(cfg, "CheatEarly") > 0 {
+		kinds.push(("CheatEarly", weight(cfg, "CheatEarly")));
+	}
 	if !tamperable.is_empty() && wd.tampers_done < 2 {
 		kinds.push(("Tamper", weight(cfg, "Tamper")));
 	}
@@ -589,6 +595,7 @@ pub fn next_action(wd: &World, rng: &mut Rng) -> Option<Action> {
 		"Partition" => Action::Partition { n: pick_live(rng) },
 		"Gone" => Action::Gone { n: pick_live(rng) },
 		"Heal" => Action::Heal { n: *wd.partitioned.iter().next().unwrap() },
+		"CheatEarly" => return gen_cheat(wd, rng),
 		"Corrupt" => {
 			let (f, t) = *rng.pick(&corruptible);
 			Action::Corrupt { from: f, to: t, kind: rng.below(4) as u8, bit: rng.next_u64() as u32 }
